@@ -877,6 +877,7 @@ def insertion_index_range_rule(E, mm):
                     return True
         return False
     guards = [(c, l) for c, l, cn in g.guards_of(g.ev(e)) if isinstance(l, bool) and about_range(c)]
+    guard_nodes = [(cn.id if hasattr(cn, 'id') else cn, l) for c, l, cn in g.guards_of(g.ev(e)) if isinstance(l, bool) and about_range(c)]
     if not guards:
         E.unknown('extract_macros: $n range', 'the rejecting condition does not mention the number of slots')
         return
@@ -952,6 +953,55 @@ def insertion_index_range_rule(E, mm):
     E.check(not bad, 'extract_macros: $n range', 'an insertion index n is rejected exactly when n < 0 or n >= number of slots (evaluated for -1, 0, slots-1, slots, slots+1)',
             '; '.join('$n with n = %s is %s' % (names[n], 'rejected although it names a slot' if r else 'accepted although no such slot exists: get_replacement indexes template_token_indices out of bounds') for n, r in bad),
             W(f, e, mm.facts), witness={'macro': 'DEFINE answer AS $0 END DEFINE  x0 := answer'} if bad else None)
+    # a rejected $n is also taken out of the stored definition (macros are applied even when extraction reported errors):
+    # the assignments that neutralise the token must reach the stored token, not a copy that is dropped
+    gset = guard_nodes
+    repairs = []
+    for x in walk_all_exprs(f['body']):
+        tgt = None
+        if x.get('k') == 'assign':
+            tgt = x['l']
+        elif x.get('k') == 'call' and (x.get('callee') or '').endswith('::operator=') and x.get('obj') is not None:
+            tgt = x['obj']
+        if tgt is None:
+            continue
+        root, path = field_chain(tgt)
+        root = strip_casts(root) if root is not None else None
+        if root is None or root.get('k') != 'ref' or root.get('dk') != 'var' or not path or path[-1] not in ('t', 'text'):
+            continue
+        try:
+            xe = g.ev(x)
+        except AnalysisBroken:
+            continue
+        gs_ = [(cn.id if hasattr(cn, 'id') else cn, l) for c, l, cn in g.guards_of(xe)]
+        if all(z in gs_ for z in gset):
+            repairs.append((x, xe, root))
+    for x, xe, root in repairs:
+        decl = None
+        for st in walk_stmts(f['body']):
+            if st['k'] == 'rangefor' and st['var']['d'] == root['d']:
+                decl = st['var']
+            if st['k'] == 'decl':
+                for v in st['vars']:
+                    if v['d'] == root['d']:
+                        decl = v
+        if decl is None:
+            continue
+        inst = 'extract_macros: rejected $n neutralised (%s)' % show(x)[:40]
+        if decl.get('is_ref') and not decl.get('const'):
+            E.ok(inst, '%s is a reference to the stored token' % root['name'], W(f, x, mm.facts))
+            continue
+        # a by-value loop variable is a fresh copy in every iteration: only uses later in the same iteration count
+        is_loopvar = any(st['k'] == 'rangefor' and st['var']['d'] == root['d'] for st in walk_stmts(f['body']))
+        later = [ev2 for ev2 in g.events if ev2.e.get('k') == 'ref' and ev2.e.get('d') == root['d'] and g.can_follow(xe, ev2) and
+                 not any(ev2.e is y for r2 in repairs for y in walk_expr(r2[0])) and
+                 (not is_loopvar or tuple(ev2.e.get('loc') or (0, 0))[:2] > tuple(x.get('loc') or (0, 0))[:2])]
+        if not later:
+            E.violation(inst, '%s is a copy of the stored token (declared by value) and is not used after the assignment: the rejected $n stays in the macro body, and '
+                        'get_replacement indexes template_token_indices with it when the macro is used' % root['name'], W(f, x, mm.facts),
+                        witness={'macro': 'DEFINE answer AS $7 END DEFINE  x0 := answer'})
+        else:
+            E.unknown(inst, '%s is a copy that is used afterwards: cannot see whether the neutralised token is stored back' % root['name'], W(f, x, mm.facts))
 
 
 def detect_rule(G, mm):
@@ -1528,6 +1578,27 @@ def prefix_columns_rule(mm, E, f, lams):
         if e.get('k') == 'ref':
             o = M.origin(f, e)
             return resolve(o, depth + 1) if o is not e else None
+        if is_call(e, '::size') and e.get('obj') is not None:
+            # the width of a row of the action table: action = vector(height, vector<Action>(W, ...)), rows never resized
+            row = strip_casts(e['obj'])
+            if is_call(row, '::operator[]') and show(row['obj']).replace('this->', '') == 'action':
+                widths = []
+                for x in walk_all_exprs(f['body']):
+                    if is_call(x, '::operator=') and x.get('obj') is not None and show(x['obj']).replace('this->', '') == 'action' and x.get('args'):
+                        outer = strip_casts(x['args'][0])
+                        w = None
+                        if outer is not None and outer.get('k') == 'construct' and len(outer.get('args', [])) >= 2:
+                            inner = strip_casts(outer['args'][1])
+                            if inner is not None and inner.get('k') == 'construct' and inner.get('args'):
+                                w = resolve(inner['args'][0], depth + 1)
+                        widths.append(w)
+                    elif x.get('k') == 'call' and x.get('obj') is not None and (x.get('callee') or '').split('::')[-1] in (
+                            'resize', 'push_back', 'emplace_back', 'pop_back', 'clear', 'erase', 'insert', 'assign'):
+                        o2 = strip_casts(x['obj'])
+                        if show(o2).replace('this->', '') == 'action' or (is_call(o2, '::operator[]') and show(o2['obj']).replace('this->', '') == 'action'):
+                            widths.append(None)
+                if len(widths) == 1 and widths[0] is not None:
+                    return widths[0]
         return None
 
     g = M.cfg(f)
@@ -1619,6 +1690,15 @@ def non_lr_error_rule(mm, rep, A):
             if (is_call(e, '::push_back') or is_call(e, '::emplace_back')) and 'MACRO_COMPILE_NON_LR' in show(e):
                 sites.append((f, e))
     if not sites:
+        # the record built directly in a return statement:  return {ParseError{MACRO_COMPILE_NON_LR, ...}};
+        for f in methods:
+            for st in walk_stmts(f['body']):
+                if st['k'] == 'return' and st.get('e') is not None:
+                    recs = [x for x in walk_expr(st['e']) if x.get('k') in ('init', 'construct') and (x.get('rec') or '').endswith('ParseError') and
+                            'MACRO_COMPILE_NON_LR' in show(x)]
+                    if recs:
+                        sites.append((f, recs[0]))
+    if not sites:
         # built outside the detector: the location then has to be found through some correspondence between detectors and definitions
         outside = []
         for f in mm.facts.functions:
@@ -1703,6 +1783,45 @@ def non_lr_error_rule(mm, rep, A):
     first = any(p in txt for p in ('rule.begin()->file', 'rule.front().file', 'rule[0].file', 'rule.at(0).file')) and \
         any(p in txt for p in ('rule.begin()->line', 'rule.front().line', 'rule[0].line', 'rule.at(0).line'))
     other_pos = any(p in txt for p in ('rule.back()', 'rule.end()', 'rule.rbegin()', 'replacement'))
+    if not first and not other_pos:
+        # structurally: the record's file and line are fields of the first element of the pattern, however that element is named
+        def which_elem(b):
+            b = strip_casts(b)
+            while b is not None and b.get('k') == 'paren':
+                b = strip_casts(b['e'])
+            if b is not None and b.get('k') == 'ref' and b.get('dk') == 'var':
+                o = mm.M.origin(f, b)
+                if o is not None and o is not b:
+                    return which_elem(o)
+                return None
+            if b is None:
+                return None
+            if b.get('k') == 'call' and b.get('op') in ('*', '->') and b.get('obj') is not None and not b.get('args'):
+                it = strip_conv(b['obj'])
+                if it is not None and it.get('k') == 'ref':
+                    it = strip_conv(mm.M.origin(f, it))
+                if is_call(it, '::begin') or is_call(it, '::cbegin'):
+                    return ('first', show(it['obj']))
+                return ('other', show(it) if it is not None else '?')
+            if is_call(b, '::front'):
+                return ('first', show(b['obj']))
+            if is_call(b, '::back'):
+                return ('other', show(b))
+            if (is_call(b, '::operator[]') or is_call(b, '::at')) and b.get('args'):
+                i0 = strip_casts(b['args'][0])
+                return ('first', show(b['obj'])) if i0 is not None and i0.get('k') == 'int' and i0.get('v') == 0 else ('other', show(b))
+            return None
+        srcs = {}
+        for x in walk_expr(e):
+            if x.get('k') == 'member' and x.get('name') in ('file', 'line') and x.get('base') is not None:
+                srcs.setdefault(x['name'], []).append(which_elem(x['base']))
+        if set(srcs) == {'file', 'line'} and all(v is not None for vs in srcs.values() for v in vs):
+            allv = [v for vs in srcs.values() for v in vs]
+            if all(v[0] == 'first' and v[1].replace('this->', '').endswith('rule') for v in allv):
+                first = True
+            else:
+                other_pos = True
+                txt = 'file/line taken from %s' % sorted(set(v[1] for v in allv if v[0] != 'first' or not v[1].endswith('rule')))
     inst = '%s: conflict error' % f['q'].split('::')[-1]
     where = W(f, e, mm.facts)
     if ev.conditional:
